@@ -4,7 +4,7 @@
 //! forms: none exactly when d = 0. rem2k: n mod 2^k for every k.
 
 use super::prelude::*;
-use crypto_bigint::{CheckedDiv, DivRemLimb, DivVartime, Reciprocal, RemLimb, RemMixed, Wrapping};
+use crypto_bigint::{Checked, CheckedDiv, DivRemLimb, DivVartime, Reciprocal, RemLimb, RemMixed, Wrapping};
 
 /// Division corpus: the generic pair corpus plus pairs relevant to the property — n = q*d,
 /// q*d +- 1, q*d + d - 1, divisors whose bit length is a multiple of the limb size, normalised
@@ -163,6 +163,20 @@ fn wrapping_checked<const L: usize>(c: &mut Ctx) {
             return;
         }
         let (x, yv) = (bu::<L>(&n), bu::<L>(&d));
+        // Checked<Uint> division: none exactly when d = 0 (and sticky none)
+        {
+            let exp = if d.is_zero() { None } else { Some(&n / &d) };
+            let (cx, cy) = (Checked::new(x), Checked::new(yv));
+            let un = |v: Checked<Uint<L>>| opt(v.0).map(|v| ub(&v));
+            check!(c, call(|| cx / cy).map(un), exp.clone(); n, d);
+            check!(c, call(|| &cx / &cy).map(un), exp.clone(); n, d);
+            check!(c, call(|| cx / &cy).map(un), exp.clone(); n, d);
+            check!(c, call(|| &cx / cy).map(un), exp; n, d);
+            let none: Option<BigUint> = None;
+            let cn: Checked<Uint<L>> = Checked(CtOption::new(x, Choice::from(0)));
+            check!(c, call(|| cn / cy).map(un), none.clone(); n, d);
+            check!(c, call(|| cx / cn).map(un), none; n, d);
+        }
         if d.is_zero() {
             let none: Option<BigUint> = None;
             check!(c, call(|| opt(x.checked_div(&yv))).map(|q| q.map(|q| ub(&q))), none.clone(); n, d);
@@ -458,7 +472,7 @@ pub fn cases() -> Vec<Case> {
     ucases!(v, "div_rem_vartime", div_rem_vartime; 1, 2, 3, 4, 16, 32);
     ucases2!(v, "div_rem_vartime mixed", div_rem_vartime_mixed; (2, 1), (3, 1), (3, 2), (4, 1), (4, 2), (4, 3), (1, 2), (2, 4), (3, 4), (16, 4), (16, 3), (4, 16), (32, 16));
     ucases!(v, "rem/rem_vartime/wrapping_rem_vartime", rem_forms; 1, 2, 3, 4, 16);
-    ucases!(v, "wrapping_div/checked_div/checked_rem/DivVartime", wrapping_checked; 1, 2, 3, 4, 16);
+    ucases!(v, "wrapping_div/checked_div/checked_rem/DivVartime/Checked<Uint> division", wrapping_checked; 1, 2, 3, 4, 16);
     ucases!(v, "operators / % /= %= (NonZero, Uint, Wrapping)", operators; 1, 2, 3, 4);
     ucases!(v, "rem_wide_vartime", rem_wide_vartime; 1, 2, 3, 4, 16);
     ucases!(v, "rem2k_vartime", rem2k_vartime; 1, 2, 3, 4, 16);
